@@ -175,34 +175,44 @@ def _fit_tilt_seg(chk, f, p, opd, ptt, clause):
     if not lps:
         raise AnalysisError('fit_tilt: segment loop not found')
     lp = lps[0]
-    okl = oko = False
+    okl = oko = None
     det = ''
+    nv = lambda x: nf.block_rows_view(x, ptt, nf.attr(SELF, 'size'), 3) if isinstance(x, (Poly, Tup)) else x
+    mask_atoms = (nf.attr(SELF, 'mask').single_atom(), nf.attr(SELF, '_mask').single_atom())
     for bs in lp['states']:
         evs = bs.events[lp['n_pre_events']:]
         ls = [e for e in evs if e.kind == 'call' and e.data.get('callee') == 'ext:numpy.linalg.lstsq']
-        seg_i = [a for e in evs for a in nf.value_atoms(e.data.get('key')) if e.kind == 'write' and a[0] == 'iter']
-        if not ls or not seg_i:
+        if not ls:
             continue
-        k = Poly.atom(seg_i[0])
-        rows = nf.index(ptt, Slice(3 * k, 3 * k + 3))
-        # ptt_vector.reshape(size, 3, -1)[k] is a view of rows 3k..3k+2
-        nv = lambda x: nf.block_rows_view(x, ptt, nf.attr(SELF, 'size'), 3) if isinstance(x, (Poly, Tup)) else x
-        okl = nv(ls[0].data['args'][0]) == nf.app('T', rows) and ls[0].data['args'][1] in [nf.app('m:ravel', o) for o in opd]
-        det = ', '.join(fmt(a)[:90] for a in ls[0].data['args'])
+        # the segment index k: the basis handed to the fit is T(ptt[lo:lo+3]) with lo = 3k (views of the basis normalised)
+        a0 = nv(ls[0].data['args'][0])
+        ta = a0.single_atom() if isinstance(a0, Poly) else None
+        ra = ta[2][0].single_atom() if ta is not None and is_app(ta, 'T') and isinstance(ta[2][0], Poly) else None
+        k = None
+        if ra is not None and ra[0] == 'idx' and Poly.atom(ra[1]) == ptt and isinstance(ra[2], Slice) and ra[2].hi - ra[2].lo == C(3):
+            k = ra[2].lo / 3
+        det = ', '.join(fmt(nv(a))[:90] for a in ls[0].data['args'])
+        if k is None:
+            okl = False
+            continue
+        okl = ls[0].data['args'][1] in [nf.app('m:ravel', o) for o in opd] and not (k.const_value() is not None)
         for e in evs:
-            if e.kind == 'write' and e.data.get('how') == 'setitem' and e.data.get('key') == k and isinstance(e.data.get('value'), Poly):
+            if e.kind == 'write' and e.data.get('how') == 'setitem' and isinstance(e.data.get('value'), Poly):
                 v = nv(e.data['value'])
-                masks = [a for a in v.atoms(deep=False) if a[0] == 'idx' and a[2] == k and a[1] in
-                         (nf.attr(SELF, 'mask').single_atom(), nf.attr(SELF, '_mask').single_atom())]
-                if len(masks) == 1:
-                    inner = v / Poly.atom(masks[0])
-                    for o in opd:
-                        d = o - inner
-                        da = d.single_atom() if isinstance(d, Poly) else None
-                        if da is not None and is_app(da, 'm:reshape'):
-                            es = da[2][0].single_atom()
-                            oko = es is not None and is_app(es, 'einsum') and \
-                                es[2][1] == nf.index(ptt, Slice(3 * k + 1, 3 * k + 3))
+                masks = [x for x in v.atoms(deep=False) if x[0] == 'idx' and x[1] in mask_atoms]
+                if len(masks) != 1:
+                    continue
+                if masks[0][2] != k:
+                    oko = False         # the piece of segment k is cut out with another segment's mask
+                    continue
+                inner = v / Poly.atom(masks[0])
+                for o in opd:
+                    d = o - inner
+                    da = d.single_atom() if isinstance(d, Poly) else None
+                    if da is not None and is_app(da, 'm:reshape'):
+                        es = da[2][0].single_atom()
+                        good = es is not None and is_app(es, 'einsum') and es[2][1] == nf.index(ptt, Slice(3 * k + 1, 3 * k + 3))
+                        oko = good if oko is None else (oko and good)
     chk.ob(clause, 'D-flow', f.key, 'segmented: each segment is fitted against its own three basis rows', okl, det, f.loc())
     chk.ob(clause, 'D-flow', f.key, 'segmented: (OPD - that segment\'s tip/tilt ramp) * that segment\'s mask', oko, '', f.loc())
     st = [e for e in p.events if e.kind == 'write' and e.data.get('how') == 'attrstore' and e.data.get('attr') == 'opd']
@@ -211,6 +221,8 @@ def _fit_tilt_seg(chk, f, p, opd, ptt, clause):
         a = st[0].data['value'].single_atom() if isinstance(st[0].data['value'], Poly) else None
         okt = a is not None and is_app(a, 'sum') and a[2][0].single_atom() is not None and a[2][0].single_atom()[0] == 'loop' \
             and any(isinstance(x, Tup) and x.items and x.items[0] == Tup([Const('axis'), C(0)]) for x in a[2][1:])
+        if not okt and a is not None and is_app(a, 'sum') and not (a[2][0].single_atom() is not None and a[2][0].single_atom()[0] == 'loop'):
+            okt = None      # what is summed is not recognisably the per-segment stack
     chk.ob(clause, 'D-flow', f.key, 'segmented: the new OPD is the sum of the per-segment pieces over the segment axis', okt, '', f.loc())
 
 
